@@ -4,6 +4,6 @@ From C25 Require Import Secondary.
 From C24 Require Import Model.
 Extraction "model.ml" drv_b2n drv_n2b drv_z_of_n drv_n_of_z drv_nat_of_n drv_n_of_nat
   verify verify_prefix authorised_b claim_slot decode_predigest encode_predigest pd_idx pd_slot
-  secondary_slot_author
+  secondary_slot_author wrong_kind
   e_missing e_nopre e_noseal e_decode e_badidx e_over e_badslot e_badsec e_badsig e_other
   e_equiv_err e_equivocated c_notour c_tech c_other.
